@@ -460,6 +460,7 @@ TrigPoint(c) ==
   LET x == cl[c] IN
   CASE x.pc = "idle" /\ x.calls = 0 -> "pre"
     [] x.pc = "join" /\ x.nj = 0 -> "join"
+    [] x.pc = "join" /\ x.nj = 1 /\ x.mid = "" -> "rejoin"     \* the rejoin with a fresh identity after a fence
     [] x.pc = "sync" /\ x.ns = 0 -> "sync"
     [] x.pc = "setup" -> "sync"        \* armed at sync: the first heartbeat may beat Setup
     [] x.pc = "insetup" -> "setup"
@@ -570,10 +571,12 @@ CloseNormal(c) ==
 
 \* Close got the Consume lock: LeaveGroup when a member id is set; afterwards the client is gone
 CloseLeave(c) ==
-  LET x == cl[c] IN
-  /\ x.pc = "idle" /\ x.closed = "closing"
+  LET x == cl[c]
+      \* broken variant: the empty-member-id check is made without waiting for the running Consume (no lock)
+      early == Bug = "leave_skips_lock" /\ x.pc = "joinwait" /\ x.mid = "" IN
+  /\ (x.pc = "idle" \/ early) /\ x.closed = "closing"
   /\ IF x.mid = ""
-     THEN /\ co' = RemoveAll(co, MidsOf(co, c))
+     THEN /\ co' = IF early THEN co ELSE RemoveAll(co, MidsOf(co, c))
           /\ Emitting(<<[ev |-> "close_ret", c |-> c, err |-> ""]>>)
           /\ UNCHANGED <<fb, script>>
      ELSE \E k \in {"ok"} \cup (IF fb > 0 THEN LeaveKinds ELSE {}) :
@@ -584,7 +587,7 @@ CloseLeave(c) ==
           /\ Emitting(<<[ev |-> "leave", c |-> c, mid |-> x.mid, err |-> v], [ev |-> "close_ret", c |-> c, err |-> ""]>>)
           /\ fb' = IF k = "ok" THEN fb ELSE fb - 1
           /\ script' = [script EXCEPT ![c].lf = k]
-  /\ cl' = [cl EXCEPT ![c].closed = "done", ![c].pc = "done", ![c].mid = ""]
+  /\ cl' = [cl EXCEPT ![c].closed = "done", ![c].pc = IF early THEN @ ELSE "done", ![c].mid = ""]
   /\ UNCHANGED <<cfg, tb>>
 
 AllDone == \A c \in Clients : cl[c].pc = "done"
